@@ -45,7 +45,11 @@ def roundtrip_cases(draw, nums=("frac",)):
     return {"curve": c, "nodes": nodes, "tolerance": draw(st.sampled_from(tols))}
 
 
-def call_remove(curve, nodes, tol):
+def call_remove(curve, nodes, tol, form=None):
+    # the node sequence in one of the accepted forms (list / tuple / one-shot iterable), fixed by the node count
+    if form is None:
+        form = ("list", "tuple", "gen", "list", "iter", "map")[(len(nodes) * 2 + (0 if tol == "default" else 1)) % 6]
+    nodes = lib.seq_form(nodes, form)
     if tol == "default":
         curve.knot_remove(nodes)
     elif tol == "none":
